@@ -40,9 +40,9 @@ CLAIMED = {
  "C14": ("DESIGN.md 4/C14",
    "Proof of function contract: escape.instructionLocality returns, for every memory-accessing instruction kind (store, load through any pointer type incl. named ones, channel receive/send, map update/lookup/range/next, type assertion, select), exactly the verdict of derefsAreLocal on the node of the accessed operand, and never classifies an unknown instruction kind as local; EscapeGraph.nodes is immutable after construction (checked frame scan). Soundness of the escape graph w.r.t. executions and schedules is not proved.",
    "Trusted: as C05; assumed contract of NodeGroup.ValueNode (returns the node of the value). Resolve (call-site context) maps the receiver and every nillable argument onto the callee parameter of the matching position (invoke mode shifted by one); known finding 5.12: by-value struct arguments holding pointers are not mapped."),
- "C15": ("DESIGN.md 4/C15",
-   "Proof of function contracts: the basic escape-graph operations are extensive (they never lower a status nor remove a node or edge): AddNode adds exactly the missing node with its intrinsic status and keeps the graph well-formed; computeEdgeClosure propagates the source's status to the target, never lowers a status, leaves edges untouched (frame proved) and CLOSES the graph again: every edge that was closed before (target at least as escaped as source), and the edge a->b, is closed afterwards (worklist invariant over a map iterated in arbitrary order: every raised node is re-visited); MergeNodeStatus raises n to at least s, lowers nothing, keeps closed edges closed and closes all edges out of n when it raised n. The semilattice laws of Merge (idempotent/commutative/associative, upper bound) and monotonicity of the ~40 transfer cases are not proved.",
-   "Trusted: as C05; assumed deps contracts (fmt.Sprintf modifies nothing). Merge/AddEdge/LessEqual are not yet under contract."),
+  "C15": ("DESIGN.md 4/C15",
+   "Proof of function contracts: the escape-graph operations are extensive (they never lower a status nor remove a node or edge) and Merge is an upper bound: AddNode adds exactly the missing node with its intrinsic status and keeps the graph well formed; computeEdgeClosure propagates the source's status to the target, never lowers a status, keeps the node set, leaves edges untouched and CLOSES the graph again (every edge that was closed before, and the edge a->b, is closed afterwards; worklist invariant over a map iterated in arbitrary order); AddEdge adds the edge, closes it and keeps closed edges closed; MergeNodeStatus raises n to at least s and keeps closed edges closed; Edges lists only edges of the graph; Merge(g, h) leaves every node of h at least as escaped in g as in h and lowers nothing in g (for disjoint well-formed graphs; object-level frames of all operations proved); LessEqual answers true only if the statuses are pointwise ordered. Idempotence/commutativity/associativity of Merge as graph equalities, the edge part of LessEqual (bit masks) and monotonicity of the ~40 transfer cases are not proved.",
+   "Trusted: as C05; assumed deps contracts (fmt.Sprintf modifies nothing)."),
  "C16": ("DESIGN.md 4/C16",
    "Proof of function contracts, for all inputs and all iterations: stackCompare is the lexicographic comparison of (Block, Ins) sequences (functional correctness, safety, termination) and, as lemmas derived from that contract only, a total preorder compatible with content equality (reflexive, antisymmetric, four transitivity laws); stackSetUnion returns a strictly sorted (duplicate-free) set containing exactly the stacks of both arguments, reports sameAsA exactly when every stack of b already occurs in a, and terminates (three merge loops with inductive invariants); stackPushed returns s ++ [(block, ins)] in a fresh array; dataflowTransfer is the identity on non-defer instructions, resets on RunDefers and reports `repeated` exactly when some incoming stack already contains the defer. Equality of the computed sets with the sets of path-wise defer sequences (MOP = MFP for this distributive framework) and termination of the outer fixpoint are not proved.",
    "Trusted: as C05; sort.Slice is havoc (the sortedness of the Defer case's result after sort+dedupe is not claimed); heap well-typedness."),
